@@ -481,6 +481,47 @@ impl Genesis {
                 let b = Self::add_bank(sim, rng, cfg, &world, group, gi, &admins)?;
                 banks.push(b);
             }
+            // e-mode tables (swarm option): tags on some banks, entries on some (possibly other)
+            // banks, valid against each bank's own liability weights and the default caps
+            if cfg.emode {
+                let tags: Vec<u16> = banks.iter().map(|_| if rng.chance(2, 3) { rng.range(1, 3) as u16 } else { 0 }).collect();
+                for (bi, b) in banks.iter().enumerate() {
+                    let Some(bank) = crate::model::bank_of(&sim.store, &b.keys.bank) else { continue };
+                    let li: f64 = I80F48::from_le_bytes(bank.config.liability_weight_init.value).to_num();
+                    let lm: f64 = I80F48::from_le_bytes(bank.config.liability_weight_maint.value).to_num();
+                    let mut entries = [marginfi_type_crate::types::EmodeEntry {
+                        collateral_bank_emode_tag: 0,
+                        flags: 0,
+                        pad0: [0; 5],
+                        asset_weight_init: w(0.0),
+                        asset_weight_maint: w(0.0),
+                    }; marginfi_type_crate::types::MAX_EMODE_ENTRIES];
+                    let mut used: Vec<u16> = Vec::new();
+                    let n = rng.below(3) as usize; // 0, 1 or 2 entries (0 = entry-less table)
+                    for e in entries.iter_mut().take(n) {
+                        let t = *rng.pick(&[1u16, 2, 3]);
+                        if used.contains(&t) {
+                            continue;
+                        }
+                        used.push(t);
+                        let wi = li * *rng.pick(&[0.6f64, 0.8, 0.9]);
+                        let wm = f64::min(wi + 0.03, lm * 0.94).max(wi);
+                        *e = marginfi_type_crate::types::EmodeEntry {
+                            collateral_bank_emode_tag: t,
+                            flags: 0,
+                            pad0: [0; 5],
+                            asset_weight_init: w(wi),
+                            asset_weight_maint: w(wm),
+                        };
+                    }
+                    let tx = Tx::one(
+                        "genesis",
+                        ix::configure_bank_emode(group, admins.emode, b.keys.bank, tags[bi], entries),
+                    );
+                    // an invalid combination is simply refused; that is not a harness error
+                    sim.apply(Event::Tx(tx));
+                }
+            }
             world.groups.push(GroupInfo {
                 key: group,
                 admins,
